@@ -18,6 +18,9 @@
  *                  update_checksum                                                           [proved]
  *   INF_DYN    (g) setup_dynamic_header: early exits exact, code-length loop bounded
  *   INF_INIT   (h) isal_inflate_init, isal_inflate_reset, isal_inflate_set_dict (memcpy = recording stub)
+ *   INF_TABLES (j) make_inflate_huff_code_dist/_header/_lit_len, set_and_expand_lit_len_huffcode: bounded
+ *                  assertion harnesses over literal code-length vectors (harness/igzip/inflate_tables.c)
+ *   INF_STATIC (k) setup_static_header (pre-generated tables selected)
  * Contracts other helpers can reuse with --replace-call-with-contract: C_inflate_in_load,
  * C_inflate_in_read_bits_unsafe, C_inflate_in_read_bits (all three carry ghost ties g_s0/g_bits0/g_n in
  * their requires, so a caller must set those ghosts before the call), C_decode_literal_block,
@@ -51,6 +54,7 @@ extern uint64_t g_s0; /* ghost: first 64 bits of the logical input stream at ent
                          __CPROVER_old() does not accept compound expressions) */
 extern int64_t g_bits0; /* ghost: number of bits in the logical stream at entry */
 extern uint32_t g_q;  /* second ghost byte position (frame statements) */
+extern uint32_t g_i, g_j; /* ghost table indices */
 extern uint8_t w_q0;  /* ghost: value at position g_q at entry (snapshot taken by an E_ hook) */
 
 /* ---- little helpers (pure expressions) ---- */
@@ -79,8 +83,7 @@ extern uint8_t w_q0;  /* ghost: value at position g_q at entry (snapshot taken b
                        (s)->tmp_in_size >= 0 && (s)->tmp_in_size <= ISAL_DEF_MAX_HDR_SIZE)
 
 /* The caller-owned objects of an inflate_state: the struct itself, exactly avail_in bytes of input and
- * exactly avail_out bytes of output (one byte more or less touched is a failed pointer check).
- * avail_in <= 2^32-9: see "possible defect" note at decode_literal_block. */
+ * exactly avail_out bytes of output (one byte more or less touched is a failed pointer check). */
 #define INF_FRESH_STATE(s) __CPROVER_is_fresh(s, sizeof(*(s)))
 #define INF_FRESH_IN(s) __CPROVER_is_fresh((s)->next_in, (s)->avail_in)
 #define INF_FRESH_OUT(s) __CPROVER_is_fresh((s)->next_out, (s)->avail_out)
@@ -345,7 +348,7 @@ extern uint32_t g_tb, g_tt; /* ghost: B and T at entry */
 
 #if !defined(INF_CK_PLAIN)
 #define CK_COMMON(LEN, TRW)                                                                        \
-        __CPROVER_requires(state->avail_in <= 0xfffffff7u && INF_FRESH_IN(state))                  \
+        __CPROVER_requires(INF_FRESH_IN(state))                                                    \
         __CPROVER_requires(CK_PRE(state, LEN))                                                     \
         __CPROVER_requires(g_tr == TRW(state) && g_ta == CK_A(state) && g_tb == CK_B(state) &&     \
                            g_tt == CK_T(state))                                                    \
@@ -443,8 +446,7 @@ extern uint64_t g_s1; /* ghost: bits 64..127 of the logical input stream at entr
 #if defined(INF_HDR)
 #include "stubs_inflate.h"
 #define C_read_header                                                                              \
-        __CPROVER_requires(INF_FRESH_STATE(state) && state->avail_in <= 0xfffffff7u &&             \
-                           INF_FRESH_IN(state))                                                    \
+        __CPROVER_requires(INF_FRESH_STATE(state) && INF_FRESH_IN(state))                                                    \
         __CPROVER_requires(WF_inflate(state) && w_st_calls == 0 && w_dy_calls == 0)                \
         __CPROVER_requires(g_s0 == STREAM64(state) && g_s1 == STREAM64_HI(state) &&                \
                            g_bits0 == STREAM_BITS(state))                                          \
@@ -816,8 +818,7 @@ extern uint32_t w_code;   /* ghost: RFC code of symbol g_p */
 #if defined(INF_DYN)
 #include "stubs_inflate.h"
 #define C_setup_dynamic_header                                                                     \
-        __CPROVER_requires(INF_FRESH_STATE(state) && state->avail_in <= 0xfffffff7u &&             \
-                           INF_FRESH_IN(state))                                                    \
+        __CPROVER_requires(INF_FRESH_STATE(state) && INF_FRESH_IN(state))                                                    \
         __CPROVER_requires(WF_inflate(state) && w_sc_calls == 0 && w_dnh_calls == 0 &&             \
                            w_mk_calls == 0)                                                        \
         __CPROVER_requires(g_s0 == STREAM64(state) && g_s1 == STREAM64_HI(state) &&                \
@@ -853,5 +854,71 @@ extern uint32_t w_code;   /* ghost: RFC code of symbol g_p */
 #define H_setup_dynamic_header_2 VCANARY();
 #define H_setup_dynamic_header_3 VCANARY();
 #endif /* INF_DYN */
+
+/* =============================================================================================
+ * (j) decode lookup-table builders make_inflate_huff_code_dist / _header (C02/C06), BOUNDED harnesses
+ *
+ * Input as in the real call context: a table of code lengths, its histogram count[], canonical codes
+ * assigned by the real set_codes (accepted, i.e. Kraft sum <= 1; incomplete codes included).
+ * Bound: at most TB_NSYM symbols (at nondeterministic, increasing positions of the 30/19-entry table) have a
+ * non-zero length; every length 1..15 is allowed.  The result object is pre-filled with the poison
+ * value 0xFFFF, which no legal entry can equal (code length field <= 15 keeps bit 15 clear).
+ * Asserted afterwards (g_i: arbitrary short index, g_j: arbitrary offset inside a long slice):
+ *   (b) no stale entry: short_code_lookup[g_i] != poison; if it is a long-code pointer (FLAG), then its
+ *       max length is 11..15, its slice [off, off + 2^(maxlen-10)) lies inside long_code_lookup and
+ *       long_code_lookup[off + g_j] != poison  -- i.e. every entry the decoder can reach was written by
+ *       THIS call (stale entries of an earlier block cannot survive, also for incomplete codes);
+ *   (c) lookup correctness for the arbitrary symbol g_p with code C (stored bit-reversed) of length L and
+ *       arbitrary following bits g_d:  L <= 10: short[C | g_d<<L] is {symbol, extra-bit count (dist),
+ *       length L};  L > 10: short[C & 1023] is a pointer with maxlen >= L and
+ *       long[off + ((C | g_d<<L) >> 10 & (2^(maxlen-10)-1))] is {symbol, extra, L};
+ *       a symbol >= max_symbol (dist only) yields the "invalid" encoding (code length field 0);
+ *   (a) memory safety of every access (CBMC pointer/bounds checks on exact-size objects) and the frame:
+ *       count[] unchanged, the length byte of every table entry unchanged (codes of long symbols are
+ *       overwritten with 0xFFFF by design). */
+#define TB_POISON 0xFFFFu
+#define TB_FLAG SMALL_FLAG_BIT
+#define TB_OFF(e) ((uint32_t) (e) & SMALL_SHORT_SYM_MASK)
+#define TB_MAXLEN(e) ((uint32_t) (e) >> SMALL_SHORT_CODE_LEN_OFFSET)
+
+/* =============================================================================================
+ * (k) setup_static_header (C02): fixed-Huffman block, RFC 1951 3.2.6.
+ * In the default build (igzip/static_inflate.h defines ISAL_STATIC_INFLATE_TABLE) the function selects the
+ * pre-generated tables: afterwards state->lit_huff_code / dist_huff_code are byte-for-byte
+ * static_lit_huff_code / static_dist_huff_code (ghost element indices g_i, g_j), block_state ==
+ * ISAL_BLOCK_CODED, return 0, nothing else written.  That those two constant tables decode exactly the
+ * RFC 3.2.6 code (lengths 8/9/7/8, 5-bit distance codes, every symbol, extra value and following bits)
+ * is checked natively: `replay/inflate_parts.c static_tables` (dfcc havocs non-const statics, so the
+ * initialisers cannot be examined inside a contract harness; the postcondition below is relative to the
+ * tables' current contents).  The run-time fallback (NO_STATIC_INFLATE_H) is not the built configuration. */
+#if defined(INF_STATIC) && defined(INF_MEMCPY_REC)
+/* quick variant: memcpy is the recording stub -- exactly two copies, of exactly the two static tables into
+ * exactly the two table members (sizes = whole tables), destination writable / source readable proved */
+#include "stubs_inflate.h"
+#define C_setup_static_header                                                                      \
+        __CPROVER_requires(INF_FRESH_STATE(state) && w_mc_calls == 0)                              \
+        __CPROVER_assigns(state->block_state, w_mc_calls, __CPROVER_object_whole(w_mc_dst),        \
+                          __CPROVER_object_whole(w_mc_src), __CPROVER_object_whole(w_mc_n))        \
+        __CPROVER_ensures(__CPROVER_return_value == 0 && state->block_state == ISAL_BLOCK_CODED)   \
+        __CPROVER_ensures(w_mc_calls == 2 && w_mc_dst[0] == (const void *) &state->lit_huff_code && \
+                          w_mc_src[0] == (const void *) &static_lit_huff_code &&                   \
+                          w_mc_n[0] == sizeof(struct inflate_huff_code_large) &&                   \
+                          w_mc_dst[1] == (const void *) &state->dist_huff_code &&                  \
+                          w_mc_src[1] == (const void *) &static_dist_huff_code &&                  \
+                          w_mc_n[1] == sizeof(struct inflate_huff_code_small))
+#elif defined(INF_STATIC)
+#define C_setup_static_header                                                                      \
+        __CPROVER_requires(INF_FRESH_STATE(state))                                                 \
+        __CPROVER_assigns(state->lit_huff_code, state->dist_huff_code, state->block_state)         \
+        __CPROVER_ensures(__CPROVER_return_value == 0 && state->block_state == ISAL_BLOCK_CODED)   \
+        __CPROVER_ensures(state->lit_huff_code.short_code_lookup[g_i % (1 << ISAL_DECODE_LONG_BITS)] == \
+                                  static_lit_huff_code.short_code_lookup[g_i % (1 << ISAL_DECODE_LONG_BITS)] && \
+                          state->lit_huff_code.long_code_lookup[g_j % ISAL_HUFF_CODE_LARGE_LONG_ALIGNED] == \
+                                  static_lit_huff_code.long_code_lookup[g_j % ISAL_HUFF_CODE_LARGE_LONG_ALIGNED]) \
+        __CPROVER_ensures(state->dist_huff_code.short_code_lookup[g_i % (1 << ISAL_DECODE_SHORT_BITS)] == \
+                                  static_dist_huff_code.short_code_lookup[g_i % (1 << ISAL_DECODE_SHORT_BITS)] && \
+                          state->dist_huff_code.long_code_lookup[g_j % ISAL_HUFF_CODE_SMALL_LONG_ALIGNED] == \
+                                  static_dist_huff_code.long_code_lookup[g_j % ISAL_HUFF_CODE_SMALL_LONG_ALIGNED])
+#endif
 
 #endif
